@@ -36,6 +36,52 @@ func lifecyclePost(k, n, post, pos int) []HOp {
 	return append(out, q[pos:]...)
 }
 
+// withoutLogin drops the login of session k from a rendered lifecycle: a
+// session that reuses the PID without any SSH login (cron, console, su).
+func withoutLogin(q []HOp, k int) []HOp {
+	var out []HOp
+	for _, o := range q {
+		if (o.Kind == opLogin || o.Kind == opRelogin) && o.K == k {
+			continue
+		}
+		out = append(out, o)
+	}
+	return out
+}
+
+// withRelogin delivers the login of session k a second time at the pick-th of
+// the positions where the session is live and correlated (after both halves,
+// not after its CRED_DISP); ok is false if there is no such position.
+func withRelogin(q []HOp, k int, pick func(n int) int) (out []HOp, ok bool) {
+	rec, login, cd := -1, -1, len(q)
+	for i, o := range q {
+		if o.K != k {
+			continue
+		}
+		switch {
+		case o.Kind == opRec && rec < 0:
+			rec = i
+		case o.Kind == opLogin && login < 0:
+			login = i
+		case o.Kind == opCD && cd == len(q):
+			cd = i
+		}
+	}
+	if rec < 0 || login < 0 {
+		return q, false
+	}
+	from := rec
+	if login > from {
+		from = login
+	}
+	from++ // first position after both halves
+	if from > cd {
+		return q, false
+	}
+	pos := from + pick(cd-from+1)
+	return insertAt(q, HOp{Kind: opRelogin, K: k}, pos), true
+}
+
 // insertAt returns xs with op inserted at every listed position (positions
 // refer to the original list, several may coincide).
 func insertAt(xs []HOp, op HOp, positions ...int) []HOp {
@@ -224,8 +270,24 @@ func reuseJobs(loginPosCovered *vlib.Distinct) []reuseJob {
 								bvars = append(bvars, insertAt(b, stray, s1, s2))
 							}
 						}
+						type pair struct{ a, b []HOp }
+						var pairs []pair
 						for _, bv := range bvars {
-							base := append(append([]HOp{}, a...), bv...)
+							pairs = append(pairs, pair{a, bv})
+						}
+						// the next holder of the PID is no SSH session at all; and/or the first
+						// session's login line is delivered twice while that session is live
+						if pB == 0 {
+							pairs = append(pairs, pair{a, withoutLogin(b, 1)})
+						}
+						if ar, ok := withRelogin(a, 0, func(n int) int { return (nB + pB) % n }); ok {
+							pairs = append(pairs, pair{ar, b})
+							if pB == 0 {
+								pairs = append(pairs, pair{ar, withoutLogin(b, 1)})
+							}
+						}
+						for _, pr := range pairs {
+							base := append(append([]HOp{}, pr.a...), pr.b...)
 							jobs = append(jobs, reuseJob{reusePlan(2, 0), base})
 							for c := 0; c <= len(base); c++ {
 								jobs = append(jobs, reuseJob{reusePlan(2, 0), insertAt(base, HOp{Kind: opClean, Cut: cutNone}, c)})
@@ -257,6 +319,14 @@ func randReuse(rng *vlib.Rng) (Plan, []HOp) {
 			post = 1 + rng.Intn(2)
 		}
 		lc := lifecyclePost(g, n, post, rng.Intn(n+3+post))
+		if rng.Chance(25) {
+			if lr, ok := withRelogin(lc, g, rng.Intn); ok {
+				lc = lr
+			}
+		}
+		if g == gens-1 && rng.Chance(25) {
+			lc = withoutLogin(lc, g) // the last holder of the PID is not an SSH session
+		}
 		// strays of earlier generations
 		for s := rng.Intn(3); s > 0 && g > 0; s-- {
 			lc = insertAt(lc, HOp{Kind: opEv, K: rng.Intn(g), Typ: vlib.PickOne(rng, evTypeNames)}, rng.Intn(len(lc)+1))
